@@ -178,6 +178,7 @@ enum Template {
     CreateGroup,
 }
 
+static NOTE_REACCEPT: std::sync::atomic::AtomicU64 = std::sync::atomic::AtomicU64::new(0);
 const TEMPLATES: [Template; 8] = [Template::AppMessage, Template::Proposal, Template::Commit, Template::CommitWithRollback, Template::Welcome, Template::CreateMessage, Template::SelfUpdateMerge, Template::CreateGroup];
 
 struct Prepared {
@@ -583,7 +584,14 @@ fn run_case(prop: &str, t: Template, i: u64, rng: &mut Rng, out: &mut Outcome, d
                     let r = with_mdk!(pr.w.clients[tix].mdk, x => x.process_welcome(&wid, &rumor));
                     match r {
                         Ok(wl) => {
-                            if wl.state != welcome_types::WelcomeState::Accepted {
+                            // the interrupted call is repeated unless it demonstrably completed (welcome
+                            // Accepted AND group Active): an application whose accept_welcome never returned
+                            // calls it again
+                            let active = pr.w.clients[tix].group_state(&wl.mls_group_id) == Some(group_types::GroupState::Active);
+                            if wl.state != welcome_types::WelcomeState::Accepted || !active {
+                                if wl.state == welcome_types::WelcomeState::Accepted {
+                                    NOTE_REACCEPT.fetch_add(1, std::sync::atomic::Ordering::Relaxed);
+                                }
                                 if let Err(e) = with_mdk!(pr.w.clients[tix].mdk, x => x.accept_welcome(&wl)) {
                                     verdict = Some(("welcome-cannot-be-accepted-after-crash".into(), format!("accept_welcome: {e}")));
                                 }
